@@ -193,6 +193,32 @@ func run(c Case) (res ev.Result) {
 		res.Violation = "constructor Meta" + c.Kind + ": " + p
 		return
 	}
+	// the message is held while further messages of the same kind are constructed: results of
+	// different calls must not share memory
+	held := append([]byte{}, m...)
+	if p := ev.Try(func() {
+		mine := m
+		d := c
+		d.A, d.B, d.C, d.D, d.E = (c.A+1)%128, (c.B+1)%128, (c.C+3)%128, (c.D+5)%128, (c.E+7)%8
+		if d.B == 0 || (c.Kind == "TimeSig" || c.Kind == "Meter") {
+			d.B = c.B // keep a legal denominator
+		}
+		d.USPQ, d.BPM = c.USPQ/2+1, c.BPM/2+4
+		d.Flag1, d.Flag2 = !c.Flag1, !c.Flag2
+		d.Payload = append(append([]byte{}, c.Payload...), 0x55)
+		saved, st, sp, sa := c, wantTyp, wantPayload, wantAccessor
+		c = d
+		build()
+		c, wantTyp, wantPayload, wantAccessor = saved, st, sp, sa
+		m = mine
+	}); p != "" {
+		res.Violation = "second constructor call: " + p
+		return
+	}
+	if !bytes.Equal(m, held) {
+		res.Violation = fmt.Sprintf("Meta%s: the message returned by an earlier call changed when the constructor was called again: % X -> % X", c.Kind, clip(held), clip(m))
+		return
+	}
 	res.Classes = []string{c.Kind}
 	if _, named := namedKeys[c.Kind]; named {
 		res.Classes = []string{"named-key"}
@@ -307,9 +333,15 @@ func (c Case) inverse(m smf.Message) string {
 			return fmt.Sprintf("GetMetaMeter = %d/%d, want %d/%d", mn, md, c.A, wden)
 		}
 	case "Key":
-		var k, n uint8
-		var maj, flat bool
+		// out-parameters that still hold the opposite of the expected answer (as when one variable is
+		// reused for several messages)
+		var k, n uint8 = 0xEE, 0xEE
+		maj, flat := !c.Flag1, !c.Flag2
 		m.GetMetaKeySig(&k, &n, &maj, &flat)
+		kk := smf.Key{Key: 0xEE, Num: 0xEE, IsMajor: !c.Flag1, IsFlat: !c.Flag2}
+		if !m.GetMetaKey(&kk) || kk.Key != k || kk.Num != n || kk.IsMajor != maj || (c.A > 0 && kk.IsFlat != flat) {
+			return fmt.Sprintf("MetaKey(num=%d, major=%v, flat=%v): GetMetaKey into a used variable gives %+v, GetMetaKeySig gives tonic %d num %d major %v flat %v", c.A, c.Flag1, c.Flag2, kk, k, n, maj, flat)
+		}
 		wt := tonic(c.A, c.Flag2, c.Flag1)
 		if int(k) != wt || int(n) != c.A || maj != c.Flag1 || (c.A > 0 && flat != c.Flag2) {
 			return fmt.Sprintf("MetaKey(num=%d, major=%v, flat=%v): GetMetaKeySig = tonic %d num %d major %v flat %v, circle of fifths gives tonic %d", c.A, c.Flag1, c.Flag2, k, n, maj, flat, wt)
@@ -322,9 +354,10 @@ func (c Case) inverse(m smf.Message) string {
 		}
 	default:
 		if _, ok := namedKeys[c.Kind]; ok {
-			var k smf.Key
-			m.GetMetaKey(&k)
 			sig := keySignatures[c.Kind]
+			// decode into a variable that holds the opposite key (a reused variable)
+			k := smf.Key{Key: 0xEE, Num: 0xEE, IsMajor: c.Kind[len(c.Kind)-3:] != "Maj", IsFlat: sig >= 0}
+			m.GetMetaKey(&k)
 			num, flat := sig, false
 			if sig < 0 {
 				num, flat = -sig, true
